@@ -56,6 +56,12 @@ impl Case {
 /// One fresh-engine search; Err(text) if the answer breaks the property.
 pub fn check_search(c: &Case, b: &Board, depth: u8, attack: bool) -> Result<String, String> {
     crate::timer::verif::set_node_clock(Some(1));
+    let fen = c.pos.fen4();
+    let _job = crate::watch::enter(
+        format!("C08 fen={} depth={} no-answer", fen, depth),
+        format!("fresh engine, search of {:?} to depth {}: no answer after {} s of wall time", fen, depth, crate::watch::LIMIT_S),
+        vec!["c08-one".to_string(), "--fen".into(), fen.clone(), "--depth".into(), depth.to_string(), "--mode".into(), if attack { "attack".into() } else { "defence".into() }],
+    );
     let (_, mv) = guard(|| {
         let mut s = Searcher::new();
         s.find_best_move(b, depth, None)
@@ -253,6 +259,7 @@ pub fn run(tier: &str, seed: u64, out: &str) {
         eprintln!("MACHINERY ERROR: {}", e);
         std::process::exit(2);
     }
+    crate::watch::start_default("C08", "model_checking", tier, seed, out);
     let tot = Tot { states: AtomicU64::new(0), attack: AtomicU64::new(0), defence: AtomicU64::new(0), searches: AtomicU64::new(0) };
     let mut parts = Vec::new();
     let mut samples = Vec::new();
